@@ -823,7 +823,7 @@ int main(int argc, char** argv)
 		if (!tsan && c.thorough && c.seed < 1000000) {
 			// the large exhaustive configurations do not depend on the seed: run once (the thorough tier's second seed is >= 10^6)
 			IF_DYN(runInterleavings<DynCfg>(c, s, three[0], 0, schedules);)		// ~146k schedules, includes ABA
-			IF_DYN(runInterleavings<DynCfg>(c, s, P{}, 0, schedules, 2, 1);)
+			IF_DYN(runInterleavings<DynCfg>(c, s, P{}, 0, schedules, 3, 1);)		// 3 rows on one thread against 1 on the other, ~124k
 			IF_STAT(runInterleavings<StatCfg>(c, s, three[0], 1, schedules);)
 			IF_STAT(runInterleavings<StatCfg>(c, s, P{}, 0, schedules, 2, 1);)
 		} else if (!tsan) {
